@@ -372,11 +372,11 @@ func (self *linkedPairs) ToMap(con map[string]Node) {
 
 func (self *linkedPairs) copyPairs(to []Pair, from []Pair, l int) {
 	copy(to, from)
-	if self.index != nil {
-		for i := 0; i < l; i++ {
-			// NOTICE: in case of user not pass hash, just cal it
-			h := caching.StrHash(from[i].Key)
-			from[i].hash = h
+	for i := 0; i < l; i++ {
+		// NOTICE: in case of user not pass hash, just cal it
+		h := caching.StrHash(to[i].Key)
+		to[i].hash = h
+		if self.index != nil {
 			self.index[h] = i
 		}
 	}
